@@ -238,6 +238,35 @@ pub fn check_take_while(seq: &[u8], threshold: u8) -> CaseResult {
         let mut it2 = seq.iter().copied().peekable();
         let folded = it2.take_while_p(|x| *x < threshold).fold(0usize, |a, _| a + 1);
         let next2 = it2.next();
+        // "behaves the same as take_while": also for a predicate with state of its own (at most `threshold`
+        // items, each item asked about once), driven item by item and through fold
+        let limit = threshold as usize;
+        let kc = seq.len().min(limit);
+        let mut n = 0usize;
+        let mut it3 = seq.iter().copied().peekable();
+        let mut counted: Vec<u8> = vec![];
+        {
+            let mut tw = it3.take_while_p(move |_| {
+                n += 1;
+                n <= limit
+            });
+            while let Some(x) = tw.next() {
+                counted.push(x);
+            }
+        }
+        let rest3: Vec<u8> = it3.collect();
+        let mut n4 = 0usize;
+        let mut it4 = seq.iter().copied().peekable();
+        let folded4 = it4
+            .take_while_p(move |_| {
+                n4 += 1;
+                n4 <= limit
+            })
+            .fold(0usize, |a, _| a + 1);
+        let stateful_ok = counted == seq[..kc] && rest3 == seq[kc..] && folded4 == kc;
+        if !stateful_ok {
+            return (false, counted, rest3);
+        }
         (taken == seq[..k] && rest == seq[k..] && folded == k && next2 == seq.get(k).copied(), taken, rest)
     });
     match r {
